@@ -149,7 +149,13 @@ pub fn build(root: &Node, cfg: &LayoutCfg, rng: &mut Rng) -> Vec<u8> {
     }
     // the mini stream must reach the highest used mini sector
     let max_used = mini_chain_of.values().flatten().max().map(|m| *m as usize + 1).unwrap_or(0);
-    let mini_stream_len = max_used * 64;
+    // other writers leave the mini stream's size alone when its last mini sectors become free: the size in the root
+    // entry may count free mini sectors at the end (beyond the last MiniFAT entry in use, even beyond the MiniFAT)
+    let mini_stream_len = if cfg.free_gaps && max_used > 0 && rng.below(3) == 0 {
+        (n_mini.max(max_used) + rng.below(3) as usize) * 64
+    } else {
+        max_used * 64
+    };
     let n_root_sectors = (mini_stream_len + s - 1) / s;
     let n_minifat_sectors = (n_mini * 4 + s - 1) / s;
     let n_dir_sectors = n_slots / per_dir;
